@@ -602,7 +602,8 @@ impl World {
             b::InitializeTickArray { whirlpool: pool, funder: ADMIN, tick_array: key, system_program: system_program::ID }
                 .ix(start)
         };
-        self.must(ix);
+        // (a tree under test that refuses a valid tick array must not stop the history: whatever needs the array fails later)
+        let _ = self.exec(ix);
         key
     }
 
